@@ -80,15 +80,40 @@ func ops(c *vf.Ctx) []op {
 	same := func(n int) int { return n }
 	var out []op
 
-	// --- chacha20 (12- and 24-byte nonce)
+	// --- chacha20 (12- and 24-byte nonce), fresh and STATEFUL: k bytes of key stream are consumed
+	// first, so that the Cipher holds 64-(k mod 64) buffered key-stream bytes (none for k = 0, 64)
+	// when the overlapping call arrives; the separate-buffer reference is built the same way
+	clens := map[int]bool{}
+	for _, n := range stdLens {
+		clens[n] = true
+	}
+	for _, n := range []int{1, 4, 16, 32, 50, 53, 54, 60, 63, 64, 65, 200} {
+		clens[n] = true
+	}
+	var chachaLens []int
+	for n := 1; n <= 300; n++ {
+		if clens[n] {
+			chachaLens = append(chachaLens, n)
+		}
+	}
 	for _, nl := range []int{12, 24} {
 		nonce := seq(0x31, nl)
-		out = append(out, op{name: fmt.Sprintf("chacha20.XORKeyStream/nonce%d", nl), inPlace: true, lens: stdLens, input: msgOf, outLen: same,
-			call: func(dst, in []byte) ([]byte, bool) {
-				ci, _ := chacha20.NewUnauthenticatedCipher(key, nonce)
-				ci.XORKeyStream(dst, in)
-				return dst[:len(in)], true
-			}})
+		for _, k := range []int{0, 1, 10, 63, 64, 65} {
+			name := fmt.Sprintf("chacha20.XORKeyStream/nonce%d", nl)
+			if k > 0 {
+				name += fmt.Sprintf("/after%dbytes", k)
+			}
+			out = append(out, op{name: name, inPlace: true, lens: chachaLens, input: msgOf, outLen: same,
+				call: func(dst, in []byte) ([]byte, bool) {
+					ci, _ := chacha20.NewUnauthenticatedCipher(key, nonce)
+					if k > 0 {
+						pre := make([]byte, k)
+						ci.XORKeyStream(pre, pre)
+					}
+					ci.XORKeyStream(dst, in)
+					return dst[:len(in)], true
+				}})
+		}
 	}
 	// --- salsa20 (8- and 24-byte nonce)
 	for _, nl := range []int{8, 24} {
@@ -218,7 +243,7 @@ func run(c *vf.Ctx) {
 	if c.Thorough {
 		maxShift = 80
 	}
-	c.Rule(fmt.Sprintf("for each of chacha20 (12/24-byte nonce), salsa20 (8/24), xts Encrypt/Decrypt, {ChaCha20,XChaCha20}-Poly1305 Seal/Open x path{asm,generic}, secretbox Seal/Open, "+
+	c.Rule(fmt.Sprintf("for each of chacha20 (12/24-byte nonce; fresh and after consuming k in {1,10,63,64,65} key-stream bytes, lengths {1,4,16,32,50,53,54,60,63,64,65,200}), salsa20 (8/24), xts Encrypt/Decrypt, {ChaCha20,XChaCha20}-Poly1305 Seal/Open x path{asm,generic}, secretbox Seal/Open, "+
 		"box Seal/Open/SealAfterPrecomputation/OpenAfterPrecomputation/SealAnonymous/OpenAnonymous, sign Sign/Open: input at a fixed offset of one backing array, output region at EVERY offset -%d..+%d "+
 		"x lengths {1,16,63,64,65,200} (xts {16,64,208}) x dst variants {exact length/capacity, longer dst or spare capacity, capacity one short, 3-byte dst prefix}; AEAD additional data at 9 placements around the output region; "+
 		"expected: same start + documented in-place => equals separate-buffer result; other overlap => panic; disjoint => equals separate-buffer result; "+
